@@ -178,8 +178,13 @@ class MainModel:
             recv = plain_var(A.call_object(call))
             if recv is None:
                 o = A.strip(A.call_object(call)) if A.call_object(call) is not None else None
-                while o is not None and o.get("k") == "CXXOperatorCallExpr" and o.get("op") in ("->", "*") and o.get("args"):
-                    o = A.strip(o["args"][0])
+                while o is not None:
+                    if o.get("k") == "CXXOperatorCallExpr" and o.get("op") in ("->", "*") and o.get("args"):
+                        o = A.strip(o["args"][0])
+                    elif o.get("k") == "UnaryOperator" and o.get("op") in ("*", "&") and o.get("c"):
+                        o = A.strip(o["c"][0])          # (*ptr).f()  /  (&obj)->f()
+                    else:
+                        break
                 recv = A.declref(o) if o is not None else None
             if recv is not None and recv["name"] in self.objs and (call.get("callee_class") or "").startswith("vfps::"):
                 var = recv["name"]
